@@ -1760,7 +1760,10 @@ def _run_case(case, fx):
             # the in-place families that run a kernel on self._values_list / self.get(key) (not through _set_str / _set_at_str)
             "values_list_family": opx.method in VALUES_LIST_FAMILY,
             "lazy_materialising_op": fx.spec["kind"] == "lazy" and opx.method in LAZY_MATERIALISING,
-            "sub_select_exclude": fx.spec["kind"] == "sub" and opx.method in ("select", "exclude")}
+            "sub_select_exclude": fx.spec["kind"] == "sub" and opx.method in ("select", "exclude"),
+            # exclude(inplace=True) is accepted on a locked tensordict (C05's D8) and leaves the memoised value lists stale
+            "locked_inplace_key_removal_in_history": fx.spec["kind"] in ("memmap", "shared")
+            and any(h[0] == "select:inplace" for h in case.get("hist", []))}
 
     sig0.update(call.flags)
 
